@@ -16,7 +16,7 @@ BUDGET = {"quick": 90, "thorough": 1200}
 RUN_TIMEOUT = 90
 SHRINK_TIMEOUT = 90
 SELFTEST_PAIRS = {"quick": 16, "thorough": 40}
-BUDGET_CLASSES = ("hang",)
+BUDGET_CLASSES = ("hang", "interpreter_crash")
 CPU_FLOOR_S = 30.0
 AS_CAP = 4 << 30
 PROBES = ["entry_direct", "entry_read_file", "entry_cli", "entry_archive_zip", "entry_archive_tar", "entry_attachment", "misdirected_route", "alias_route",
